@@ -77,6 +77,11 @@ func c05World(r *rand.Rand) (files map[string]string, element, food string, dept
 		}
 		log = append(log, day)
 	}
+	if r.Intn(3) == 0 && len(log) > 0 {
+		// two names that --shorten maps to the same label, with different amounts, on one day
+		pre, suf := gen.Name(r, gen.NameOpts{MinLen: 14, MaxLen: 14}), gen.Name(r, gen.NameOpts{MinLen: 14, MaxLen: 14})
+		log[0].Ents = append(log[0].Ents, gen.Ent{Name: pre + "/lettuce/" + suf, Val: gen.N("3")}, gen.Ent{Name: pre + "/cheddar/" + suf, Val: gen.N("5")}, gen.Ent{Name: pre + "/parsley/" + suf, Val: gen.N("7")})
+	}
 	files = map[string]string{"food.yaml": gen.RenderBook(book, nil), "log.yaml": gen.RenderLog(log, "2006/01/02", nil)}
 	return files, basics[r.Intn(len(basics))], recipes[0][:1], []string{"--maxdepth", fmt.Sprint(n)}
 }
